@@ -716,6 +716,9 @@ pub fn merger(rhs: Value, lhs: Value) -> Result<Value, Error> {
             Value::Tuple { elements, optional },
         ) => {
             let mut variants = BTreeSet::default();
+            if elements.iter().any(Value::is_optional) || r#type.is_optional() {
+                variants.insert(Value::Null);
+            }
             match r#type.deref().clone() {
                 Value::OneOf {
                     variants: inner,
